@@ -737,12 +737,15 @@ func c02r7(c *Ctx, id string) {
 			}
 		})
 		allInstrs(f, func(in ssa.Instruction) {
-			st, ok := in.(*ssa.Store)
-			if !ok || w.Origin(st.Val) != "const(true)" || !isBool(st.Val.Type()) {
-				return
+			// the captured `exist` cell is raised: a plain store of true, or Store(true) on a captured atomic.Bool
+			raised := false
+			if st, ok := in.(*ssa.Store); ok && w.Origin(st.Val) == "const(true)" && isBool(st.Val.Type()) {
+				_, raised = st.Addr.(*ssa.FreeVar)
 			}
-			// the captured `exist` cell
-			if _, isFV := st.Addr.(*ssa.FreeVar); !isFV {
+			if call, ok := in.(*ssa.Call); ok && calleeName(call.Common()) == "(*sync/atomic.Bool).Store" && len(call.Common().Args) == 2 && w.Origin(call.Common().Args[1]) == "const(true)" {
+				_, raised = call.Common().Args[0].(*ssa.FreeVar)
+			}
+			if !raised {
 				return
 			}
 			n++
